@@ -248,7 +248,7 @@ void h_dispatch(void)
   CANARY();
 }
 
-/*@ harness bounded_execute_full unwind=UNW unwindset=USET bounded=DIM,HEIGHT:all-occupancies,all-groupings,1-particle-per-leaf plain=1 enumerate=tree defs=PLAIN_STUBS props=C01,C02,C08,C09x,C15 timeout=3000 mem=24000 */
+/*@ harness bounded_execute_full flags=max-field-sensitivity-array-size:4096 unwind=UNW unwindset=USET bounded=DIM,HEIGHT:all-occupancies,all-groupings,1-particle-per-leaf plain=1 enumerate=tree defs=PLAIN_STUBS props=C01,C02,C08,C09x,C15 timeout=3000 mem=24000 */
 void bounded_execute_full(void)
 {
   struct TbfAlgorithm algo; struct TbfVerifTree tree;
@@ -275,7 +275,7 @@ void bounded_execute_full(void)
   CANARY();
 }
 
-/*@ harness bounded_execute_staged unwind=UNW unwindset=USET bounded=DIM,HEIGHT:all-occupancies,all-groupings,1-particle-per-leaf plain=1 enumerate=tree defs=PLAIN_STUBS props=C12,C15 timeout=3000 mem=24000 */
+/*@ harness bounded_execute_staged flags=max-field-sensitivity-array-size:4096 unwind=UNW unwindset=USET bounded=DIM,HEIGHT:all-occupancies,all-groupings,1-particle-per-leaf plain=1 enumerate=tree defs=PLAIN_STUBS props=C12,C15 timeout=3000 mem=24000 */
 void bounded_execute_staged(void)
 {
   struct TbfAlgorithm algo; struct TbfVerifTree tree;
@@ -296,7 +296,7 @@ void bounded_execute_staged(void)
   CANARY();
 }
 
-/*@ harness bounded_execute_p2p_only unwind=UNW unwindset=USET bounded=DIM,HEIGHT:all-occupancies,all-groupings plain=1 enumerate=tree defs=PLAIN_STUBS props=C12,C15 timeout=3000 mem=24000 */
+/*@ harness bounded_execute_p2p_only flags=max-field-sensitivity-array-size:4096 unwind=UNW unwindset=USET bounded=DIM,HEIGHT:all-occupancies,all-groupings plain=1 enumerate=tree defs=PLAIN_STUBS props=C12,C15 timeout=3000 mem=24000 */
 void bounded_execute_p2p_only(void)
 {
   struct TbfAlgorithm algo; struct TbfVerifTree tree;
